@@ -103,6 +103,7 @@ def run(ctx):
                                           dict(rec, shift=[s, t]), {'api': api, 'method': name, 'what': 'shift_equivariance'})
 
     W.storage_independence(ctx, 'C03')
+    buffer_reuse(ctx)
     from .genpipelines import check_generated_pipelines; check_generated_pipelines(ctx)   # pipelines regenerated from the source vs implementation
     from .genpipelinesmore import check_generated_pipelines_more; check_generated_pipelines_more(ctx)   # Generated/PipelinesMore.lean (NumPy fraunhofer_inverse, rayleigh_sommerfeld, equal size adjust)
 
@@ -384,3 +385,51 @@ def replay(ctx, rep):
     d = W.maxdiff(fw, a * fu + b * fv) / max(1e-12, float(np.max(np.abs(fu))))
     print('superposition defect %.3g' % d)
     return d <= 2e-3
+
+
+def buffer_reuse(ctx):
+    """ONE field tensor serves several calls and is updated IN PLACE between them (a preallocated frame buffer: buf.mul_(a), buf.add_(b v), buf.zero_(),
+    buf.copy_(roll(u))): every call must propagate what the buffer holds NOW.  out(a u + b v) = a out(u) + b out(v) and zero -> zero and the shift law are
+    statements about values, not about tensor objects."""
+    import odak.learn.wave as LW
+    rng = ctx.rng
+    k = 2 * math.pi / 0.5
+    for name in ('Angular Spectrum', 'Bandlimited Angular Spectrum', 'Transfer Function Fresnel', 'Impulse Response Fresnel', 'custom'):
+        for (n, m) in ((6, 6), (5, 7)):
+            u = torch.from_numpy(W.rand_field(rng, n, m, 'gauss')).to(torch.complex64)
+            v = torch.from_numpy(W.rand_field(rng, n, m, 'gauss')).to(torch.complex64)
+            a, b = complex(rng.uniform(-1, 1), rng.uniform(-1, 1)), complex(rng.uniform(-1, 1), rng.uniform(-1, 1))
+            kern = torch.exp(1j * torch.rand(n, m) * 6.28).to(torch.complex64) if name == 'custom' else None
+            f = lambda t: LW.propagate_beam(t, k, 1.3, 0.8, 0.5, propagation_type=name, kernel=kern, zero_padding=[False, False, False], samples=[2, 2, 2, 2])
+            ctx.case(('buffer_reuse', name, n, m), True)
+            ctx.count('buffer_updated_in_place/' + name)
+            try:
+                ou, ov = f(u.clone()), f(v.clone())
+                buf = u.clone()
+                o1 = f(buf)
+                buf.mul_(a)
+                o2 = f(buf)
+                buf.add_(b * v)
+                o3 = f(buf)
+                buf.zero_()
+                o4 = f(buf)
+                buf.copy_(torch.roll(u, shifts=(1, 2), dims=(-2, -1)))
+                o5 = f(buf)
+            except Exception as e:
+                ctx.note('buffer reuse: %s raised %r' % (name, e))
+                continue
+            sc = max(1.0, float(ou.abs().max()), float(ov.abs().max()))
+            fails = []
+            if float((o1 - ou).abs().max()) > 1e-4 * sc:
+                fails.append('first call differs from a fresh tensor')
+            if float((o2 - a * ou).abs().max()) > 1e-3 * sc:
+                fails.append('after buf *= a the output is not a out(u) (defect %.3g)' % float((o2 - a * ou).abs().max()))
+            if float((o3 - (a * ou + b * ov)).abs().max()) > 2e-3 * sc:
+                fails.append('after buf += b v the output is not a out(u) + b out(v) (defect %.3g)' % float((o3 - (a * ou + b * ov)).abs().max()))
+            if float(o4.abs().max()) > 1e-6 * sc:
+                fails.append('after buf.zero_() the output is not zero (max %.3g)' % float(o4.abs().max()))
+            if name != 'custom' and float((o5 - torch.roll(ou, shifts=(1, 2), dims=(-2, -1))).abs().max()) > 2e-3 * sc:
+                fails.append('after buf.copy_(roll(u)) the output is not roll(out(u))')
+            if fails:
+                ctx.violation('torch %s with ONE field tensor updated in place between calls: %s' % (name, '; '.join(fails)),
+                              {'method': name, 'n': n, 'm': m, 'what': 'buffer_reuse'}, {'api': 'torch', 'method': name, 'what': 'buffer_updated_in_place'})
